@@ -37,6 +37,10 @@ def cksAggregate (s1 s2 s3 : LShare α) : Res (LShare α) :=
 def cksKeySwitch (ctLevel : Nat) (c0 c1 : α) (agg : LShare α) : Res (α × α) :=
   if agg.level < ctLevel then .panic else .ok (c0 + agg.v, c1)
 
+/-- level of the output of an out-of-place `KeySwitch` (both protocols): the receiver is resized to
+    the level of the input ciphertext, whatever level it was allocated at -/
+def ksOutLevel (ctLevel _recvLevel : Nat) : Nat := ctLevel
+
 /-! ## Collective public-key switching (keyswitch_pk.go) -/
 
 /-- `Encryptor.encryptZeroPk` over `Q·p₀` followed by `ModDownQPtoQ`:
@@ -142,8 +146,33 @@ def centredLiftP (qs : List Nat) (p : Nat) (x : RPoly) : RPoly :=
 def pinvPoly (qs : List Nat) (p n : Nat) : RPoly :=
   constPoly qs n (qs.map fun q => RPoly.modInv (p % q) q)
 
-/-- `mpckks.GetMinimumLevelForRefresh` needs floating-point logarithms and is evaluated on the Go side
-    only (probe `min_level`). -/
 def dropRow (x : RPoly) (k : Nat) : RPoly := { qs := x.qs.take k, c := x.c.take k }
+
+/-! ## `mpckks.GetMinimumLevelForRefresh` in exact arithmetic
+
+  The code computes `logBound = λ + ⌈log2 scale⌉`, `maxBound = ⌈logBound + log2 nParties⌉` and adds
+  `log2 q_i` until the sum reaches `maxBound` (floating point).  Since `logBound` is an integer,
+  `maxBound = logBound + ⌈log2 nParties⌉`, and "Σ log2 q_i ≥ maxBound" is `Π q_i ≥ 2^maxBound`:
+  the minimum level is the smallest `L` with `q_0⋯q_L ≥ 2^(logBound + ⌈log2 nParties⌉)`, which is
+  what the `nParties` masks of `logBound` bits need (`nParties·2^logBound ≤ Q_L`). -/
+
+/-- `⌈log2 n⌉` for `n ≥ 1` (`0` for `n ≤ 1`): the least `k` with `n ≤ 2^k` -/
+def clog2 (n : Nat) : Nat := if n ≤ 1 then 0 else Nat.log2 (n - 1) + 1
+
+/-- number of primes consumed by the loop: least `k` with `acc·q_0⋯q_{k-1} ≥ bound`, `none` if the
+    chain is too short -/
+def primesNeeded (bound : Nat) : Nat → List Nat → Option Nat
+  | acc, qs =>
+    if bound ≤ acc then some 0
+    else match qs with
+      | [] => none
+      | q :: rest => (primesNeeded bound (acc * q) rest).map (· + 1)
+
+/-- `(minLevel, logBound)`; `minLevel = −1` when no prime is needed (`maxBound = 0`) -/
+def minLevelForRefresh (lambda scale nParties : Nat) (moduli : List Nat) : Option (Int × Nat) :=
+  let logBound := lambda + clog2 scale
+  match primesNeeded (2 ^ (logBound + clog2 nParties)) 1 moduli with
+  | none => none
+  | some k => some ((k : Int) - 1, logBound)
 
 end Lattigo.MP
